@@ -32,7 +32,34 @@ def alloc_check(res, gr, results):
     res.coverage["valid_values_measured"] = valid
 
 
+def helpers_alloc_free(res):
+    """the runtime recognizers on every ACCEPTED string of the C11-C13 / alpha / numeric corpora: zero mallocs"""
+    import subprocess
+    import recog
+    from vlib import go_build
+    exe, err = go_build("./cmd/helperalloc", "helperalloc")
+    if exe is None:
+        res.violation({"kind": "correspondence-break", "what": "cannot build the allocation probe against /repo", "log_tail": err[-2000:]}, found_input=False)
+        return
+    out = {}
+    for fn, fam in (("IsValidEmail", "email"), ("IsValidURL", "url"), ("IsValidUUID", "uuid"), ("IsValidAlpha", "alnum"), ("IsNumeric", "alnum")):
+        path = recog.gen_inputs(fam, res.seed, "quick", name="c19_" + fam)
+        with open(path) as fi:
+            p = subprocess.run([exe, fn], stdin=fi, stdout=subprocess.PIPE, stderr=subprocess.PIPE, text=True)
+        if p.returncode != 0:
+            raise RuntimeError("helperalloc failed: " + p.stderr[-1000:])
+        lines = p.stdout.splitlines()
+        _, n, acc, total = lines[0].split()
+        out[fn] = {"inputs": int(n), "accepted_and_measured": int(acc), "mallocs": int(total)}
+        for l in lines[1:4]:
+            _, h, k = l.split()
+            res.violation({"kind": "spec-violation", "function": fn, "input_hex": h, "input_repr": repr(recog.unhex(h))[:200], "allocs_per_call": int(k),
+                           "what": "the recognizer allocates on a string it accepts, so validating a valid value of a field with this marker allocates"})
+    res.coverage["helper_allocations"] = out
+
+
 def check(res):
+    helpers_alloc_free(res)
     merged = {"scenarios": []}
     for f in (corpora.c01, corpora.c02, corpora.c03, corpora.c04, corpora.c05, corpora.c06):
         c = f(res.seed, "quick")
@@ -67,7 +94,7 @@ def valid_sizes():
             set_str("Al", b"x" * k * 50), set_str("Nu", b"7" * k * 50), set_str("I4", b"10.%d.3.4" % k), set_str("I6", b"2001:db8::%x" % k),
             set_coll("Sl", False, k * 100), set_coll("Mp", False, k), set_coll("Ch", False, k * 10),
             set_str("E9", b"i" if k == 1 else b"a"), set_str("E12", b"navy" if k == 30 else b"red"), set_str("E2", b"off"),
-            set_str("Ui", [b"550E8400-E29B-41D4-A716-446655440000", b"550e8400-E29b-41D4-a716-44665544AbCd", b"FFFFFFFF-FFFF-FFFF-FFFF-FFFFFFFFFFFF"][k % 3])]))
+            set_str("Ui", [b"550E8400-E29B-41D4-A716-446655440000", b"550e8400-E29b-41D4-a716-44665544AbCd", b"FFFFFFFF-FFFF-FFFF-FFFF-FFFFFFFFFFFF"][{1: 1, 30: 0, 60: 2}[k]])]))
     return [scenario("c19sizes", [struct("T", fields, cases)])]
 
 
